@@ -2,6 +2,13 @@
 """Regenerates /verif/MANIFEST.json from the table below (run after adding a check)."""
 import json, subprocess, sys
 CLAIMED = {
+ "C01": ("exploration", "pair driver: real client object + real server object over a simulated transport (chunking, interleaving, loss at any byte with independent notification, half-open sending, write failure, keep-alive expiry, broker object replaced + session restored); ledger of tagged publishes (exactly-once / at-least-once / at-most-once, original topic and payload), no protocol error about the peer, bounded drain, quiescence of both ends; both ends also under the per-endpoint reference models", "5 C01"),
+ "C09": ("fault_enumeration", "twin driver: reference feeding (one frame per buffer) vs the same byte stream under every partition with at most 2 cuts of one burst per sampled history (bursts up to 40 bytes; longer: all single cuts + seeded pairs), the all-single-bytes partition and seeded partitions; independent framing in the harness checks every call consumes at most one frame", "5 C09"),
+ "C10": ("exploration", "twin driver: object reused after any first-connection history (incl. adversarial traffic, partial frame, armed timers) and notify_closed vs a freshly constructed object, same new-session script; trace equality and state-digest equality through the hook", "5 C10"),
+ "C11": ("exploration", "exhaustive role x version x status x 33 representative packets x {none, persistent, offline} matrix on states reached by real handshakes, spec gate table as oracle, digest comparison for 'as if not made'; compile-time Sendable table probe; refused call injected into random sessions (twin)", "5 C11"),
+ "C16": ("fault_enumeration", "twin driver: every prefix of each sampled history is a crash point; object restored from the export vs object that only lost its transport, same continuation; trace and state-digest equality; duplicated export entries", "5 C16"),
+ "C17": ("exploration", "exhaustive role x version x status x 16 type nibbles (+ unsupported CONNECT levels) matrix with the spec gate table as oracle and session-digest comparison; undetermined server vs fixed-version server in lock-step on random sessions incl. adversarial traffic", "5 C17"),
+ "C20": ("exploration", "alloc driver: all op sequences of length 5 over five small ranges (exhaustive) + seeded long histories over u16/u32 ranges incl. the extremes against a BTreeSet model; representation invariant through the hook; in-situ invariant in connection runs", "5 C20"),
  "C05": ("exploration", "solo driver: contract-respecting application + scripted/adversarial peer; panic (catch_unwind, overflow checks + debug assertions on), finite event list, no silently swallowed frame (independent framing), reconnect after close", "5 C05"),
  "C06": ("exploration", "solo driver: ordered-store reference model compared with get_stored_packets() after every call; unmatched acknowledgements, resume retransmission list, session-not-present reset; faults: loss, crash/restore, wrong/duplicate acks, write failure", "5 C06"),
  "C07": ("exploration", "solo driver: per-id two-state model of inbound QoS 2 under duplication, reconnects (clean/resumed), crash with export/restore of the handled set, manual/automatic responses", "5 C07"),
